@@ -88,6 +88,7 @@ struct osm_state {
 	unsigned reaped;      /* bit a: that child was reported by wait */
 	unsigned termed;      /* bit a: that child received SIGTERM while live */
 	unsigned term_due;    /* children that were live when the FIRST failure became known to the driver */
+	int late_term;        /* wait() calls made while a child of term_due was still live and had not been sent SIGTERM */
 	struct osm_child child[OSM_MAXCHILD];
 	int unknown_left;
 	int nfail;            /* failures to start a stage (posix_spawn, pipe, fcntl, file actions) + children reaped with a
